@@ -1,6 +1,7 @@
 package backtrace
 
 import (
+	"github.com/awslabs/ar-go-tools/analysis/config"
 	df "github.com/awslabs/ar-go-tools/analysis/dataflow"
 )
 
@@ -108,5 +109,47 @@ func Harness_C03_trace_shape() {
 	if n > 1 {
 		addTrace(v, w.Dst, findTrace(w.State, cur.Prev))
 		verifAssert("different-trace-is-kept", len(v.Traces[w.Dst]) == 2)
+	}
+}
+
+// Harness_C03_visit_main: end to end on a hand-built function: the real intra-procedural analysis builds the
+// summary of `t0 = srcA(); t1 = srcB(); t2 = t[x]+t[y]; sink(v[a0], v[a1])`, then the real backward Visit runs
+// from the sink call; for every argument, every origin call its value derives from must appear in some trace.
+func Harness_C03_visit_main() {
+	x, y := verifPick("x", 0, 1), verifPick("y", 0, 1)
+	a0, a1 := verifPick("arg0", 0, 2), verifPick("arg1", 0, 2)
+	// the same SSA value passed twice to one call is the region of KF-C03-duplicate-argument (see DESIGN §5 D9)
+	dup := a0 == a1
+	w := df.VerifNewMainWorld(x, y, a0, a1)
+	verifAssert("summary-built", w.Err == nil && w.Sink != nil && w.SrcA != nil && w.SrcB != nil)
+	if w.Sink == nil || w.SrcA == nil || w.SrcB == nil {
+		return
+	}
+	v := &Visitor{SlicingSpec: &config.SlicingSpec{}, Traces: map[df.GraphNode][]Trace{}}
+	verifTerminatesWithin("backward-visit-terminates", 3000000)
+	v.Visit(w.State, df.NodeWithTrace{Node: w.Sink})
+	verifTerminated()
+	verifReach("visited")
+	verifAssert("no-visitor-error", len(v.Errs) == 0)
+	origins := []*df.CallNode{w.SrcA, w.SrcB}
+	for j, arg := range w.Sink.Args() {
+		traces := v.Traces[arg]
+		for o := 0; o < 2; o++ {
+			if !w.Origins[j][o] {
+				continue
+			}
+			found := false
+			for _, tr := range traces {
+				for _, tn := range tr {
+					if tn.GraphNode == df.GraphNode(origins[o]) {
+						found = true
+					}
+				}
+			}
+			verifAssertKnown("every-origin-of-the-argument-is-in-some-trace", "KF-C03-duplicate-argument", dup, found)
+		}
+		for _, tr := range traces {
+			verifAssert("trace-ends-at-the-backtrace-point-argument", len(tr) > 0 && tr[len(tr)-1].GraphNode == df.GraphNode(arg))
+		}
 	}
 }
